@@ -7,7 +7,7 @@ from mc.ref import refurl, refpsl, vocab
 PROP = "C06"
 B_HOST = ["a.com", "b.a.co.uk", "télérama.fr", "facebook.com", "youtube.com", "shop.example.org"]
 B_PATH = ["", "/p", "/P/Q.html", "/a b/É", "/embed/dQw4w9WgXcQ"]
-BASE = [("b_host", B_HOST), ("b_path", B_PATH), ("b_query", list(range(len(nvar.B_QUERY)))), ("b_frag", ["", "/home/inbox"])]
+BASE = [("b_host", B_HOST + ["de.b.example.org"]), ("b_path", B_PATH), ("b_query", list(range(len(nvar.B_QUERY)))), ("b_frag", ["", "/home/inbox"])]
 OPTS = [("strip_suffix", [False, True]), ("platform_aware", [False, True])]
 EXTRA = [
     ("t_case", ["", "host", "path", "query", "fragment", "all", "escapes"]),
@@ -35,9 +35,8 @@ def the_grid(tier):
 
 def extra(parts, g):
     lang = g("t_lang", "")
-    if lang and not parts["host"].lower().startswith("amp-"):
-        # the language label goes in front of the (possibly www-prefixed) host; 'amp-' is only documented as a
-        # *leading* prefix, so a label in front of it is not a composition of two documented variations
+    if lang:
+        # the language label goes in front of the (possibly www- / amp- prefixed) host: fp(lang.X) == fp(X) for every X
         parts["host"] = lang + parts["host"]
     p = g("t_anyport", "")
     if p:
@@ -90,6 +89,60 @@ def evaluate(case):
                       {"variant": var, "fingerprint": rv[1] if rv[0] == "ok" else list(rv)}))
     elif not shape_ok(rv[1]):
         fails.append((PROP + ".shape", "no scheme, userinfo or port", {"url": var, "fingerprint": rv[1]}))
+    return fails, ["nontrivial"], rb[1]
+
+
+# ---------------------------------------------------------------------------------
+# redirect-carrying bases: the fingerprint of a URL that obviously redirects is the fingerprint of its target, whatever
+# the spelling of the carrier *and of the hint* (letter case of the whole URL included)
+
+R_BASES = ["http://a.com/p?url=http%3A%2F%2Fb.com%2Fx", "http://a.com/login?next=/home", "http://youtube.com/redirect?q=b.com%2Fa",
+           "http://www.google.com/url?q=http%3A%2F%2Fb.com%2Fx", "http://x.cdn.ampproject.org/c/s/b.com/x", "http://a.com/p?x=1&u=https%3A%2F%2Fb.com",
+           "http://a.com/p?url=http://b.com/x", "https://bc.marfeel.com/b.com/x"]
+R_TOGGLES = [("r_case", ["", "all", "host", "hint-key", "target-scheme", "target", "path"]), ("r_port", ["", ":8080", ":80"]),
+             ("r_lang", ["", "fr.", "fr-BE."]), ("r_scheme", ["http://", "https://", "", "HTTP://"]), ("r_wrap", ["", "left", "right"])]
+R_GRID = grid.Grid("redirect-bases", R_TOGGLES, free=[("r_base", R_BASES)] + OPTS)
+
+
+def r_build(case, toggled=True):
+    import re as _re
+    g = (lambda k, d: case.get(k, d)) if toggled else (lambda k, d: d)
+    base = case.get("r_base", R_BASES[0])
+    bscheme, rest = base.split("://", 1)
+    host, sep, tail = rest.partition("/")
+    tail = sep + tail
+    c = g("r_case", "")
+    scheme = g("r_scheme", "http://")
+    if scheme in ("http://", "HTTP://") and bscheme == "https":
+        scheme = scheme.replace("http", "https").replace("HTTP", "HTTPS")
+    if c in ("all", "host"):
+        host = host.upper()
+    if c in ("all", "path"):
+        q = tail.find("?")
+        tail = tail[:q].upper() + tail[q:] if q >= 0 else tail.upper()
+    if c in ("all", "hint-key"):
+        tail = _re.sub(r"([?&])([a-z]+)=", lambda m: m.group(1) + m.group(2).upper() + "=", tail)
+    if c in ("all", "target-scheme"):
+        tail = _re.sub(r"=(https?)(%3A|:)", lambda m: "=" + m.group(1).upper() + m.group(2), tail)
+    if c in ("all", "target"):
+        tail = _re.sub(r"=(https?)((?:%3A%2F%2F|://|))(.*)$", lambda m: "=" + m.group(1) + m.group(2) + m.group(3).upper().replace("%2f", "%2F"), tail) if "=http" in tail \
+            else _re.sub(r"=(.*)$", lambda m: "=" + m.group(1).upper(), tail)
+    url = scheme + g("r_lang", "") + host + g("r_port", "") + tail
+    w = g("r_wrap", "")
+    return (" " + url) if w == "left" else ((url + " ") if w == "right" else url)
+
+
+def evaluate_rbucket(case):
+    fu = importlib.import_module("ural").fingerprint_url
+    base, var = r_build(case, False), r_build(case, True)
+    kw = {"strip_suffix": case.get("strip_suffix", False), "platform_aware": case.get("platform_aware", False)}
+    rb = core.call(fu, base, **kw)
+    if rb[0] != "ok" or var == base:
+        return [], ["trivial"], None
+    rv = core.call(fu, var, **kw)
+    fails = []
+    if rv[0] != "ok" or rv[1] != rb[1]:
+        fails.append((PROP + ".redirect-bucket", {"base": base, "fingerprint": rb[1]}, {"variant": var, "fingerprint": rv[1] if rv[0] == "ok" else list(rv)}))
     return fails, ["nontrivial"], rb[1]
 
 
@@ -208,6 +261,8 @@ def pure_thunk(label):
 def judge(w):
     if "history" in w:
         return core.judge_history(PROP + ".pure", w, pure_thunk)
+    if w.get("kind") == "rbucket":
+        return evaluate_rbucket(dict(R_GRID.default_case(), **w["case"]))[0]
     if "case" in w:
         g = the_grid("thorough")
         return evaluate(dict(g.default_case(), **w["case"]))[0]
@@ -224,6 +279,8 @@ def fails_fn(clause, w):
 def simplify(w):
     if "history" in w:
         return []
+    if w.get("kind") == "rbucket":
+        return [dict(x, kind="rbucket") for x in R_GRID.wsimplify(w)]
     if "case" in w:
         return the_grid("thorough").wsimplify(w)
     out = []
@@ -254,6 +311,10 @@ def run(chk):
         f_deep, t_deep = grid.run(chk, the_grid("deep"), 3, evaluate, shrink=(wg.wit, simplify, fails_fn), target=30000)
         for k_, v_ in t_deep.items():
             tags[k_] = tags.get(k_, 0) + v_
+    chk.rule.append("Redirect-carrying bases (%d) x the full product of case flips (whole URL, host, hint key, target scheme, target, path), "
+                    "port, language label, scheme and wrapping x the 4 option vectors." % len(R_BASES))
+    fr, tr = grid.run(chk, R_GRID, None, evaluate_rbucket, shrink=(lambda case: dict(R_GRID.wit(case), kind="rbucket"), simplify, fails_fn))
+    chk.clause(PROP + ".redirect-bucket", checked=chk.cov["parts"][R_GRID.name]["cases"], nontrivial=tr.get("nontrivial", 0))
     n1 = chk.cov["states"]
     chk.clause(PROP + ".bucket", checked=n1, nontrivial=tags.get("nontrivial", 0))
     chk.clause(PROP + ".shape", checked=n1, nontrivial=tags.get("nontrivial", 0))
